@@ -743,6 +743,8 @@ class Interp:
                     self.resolve(fr, st[1]).set(v)
                 elif st[0] == 'setdisc':
                     raise Unsupported('setdisc')
+                elif st[0] == 'unsupported':
+                    raise Unsupported('MIR statement form: ' + st[1])
             self.steps += len(stmts) + 1
             if self.steps > STEP_BUDGET:
                 raise RustPanic('step budget exceeded (non-termination?)')
@@ -800,6 +802,8 @@ class Interp:
                 bb = ret
             elif k == 'unreachable':
                 raise Unsupported('reached unreachable in ' + fname)
+            elif k == 'unsupported':
+                raise Unsupported('MIR terminator form: ' + term[1])
             else:
                 raise Unsupported('terminator ' + k)
 
